@@ -35,6 +35,12 @@ func main() {
 			pmlib.DemandSpec{Static: true, Describe: true, Late: true}, 2, 3),
 		mk("odstatic-close-while-held", "manager shut down while R1+D1 are on hold and the source becomes ready", nil,
 			pmlib.DemandSpec{Static: true, Source: true, Describe: true, Close: true}, 2, 3),
+		mk("odstatic-blocking-served-then-late", "on-demand static source whose protocol client keeps running (returns only when its context is cancelled): R1+D1 on hold, source ready, then not ready; late reader R2", nil,
+			pmlib.DemandSpec{Static: true, Blocking: true, Source: true, SourceGoes: true, Describe: true, Late: true}, 1, 2),
+		mk("odstatic-blocking-ready-vs-timeout", "same source, stays ready: its readiness races with the start timeout and the close-after timer", nil,
+			pmlib.DemandSpec{Static: true, Blocking: true, Source: true, Describe: true}, 2, 3),
+		mk("odstatic-blocking-close-while-held", "same source: manager shut down while R1+D1 are on hold and the source becomes ready", nil,
+			pmlib.DemandSpec{Static: true, Blocking: true, Source: true, Describe: true, Close: true}, 2, 3),
 	}
 	vexplore.Main("C19", scn, []string{
 		"timers (start timeout, close-after) are scheduler transitions on a virtual clock; the static source handler's retry timer is background",
